@@ -217,6 +217,8 @@ type Exec struct {
 	initPkg []*ssa.Package
 	frozenFrom [][2]int
 	curFrame *frame
+	monoClock int64
+	onces map[lockKey]bool
 	intrCache map[*ssa.Function]natFn
 	fnNames map[*ssa.Function]string
 	lockEvents []lockEvent
@@ -328,6 +330,8 @@ func (e *Exec) resetPath() {
 	e.tags = nil
 	e.claimedK = false
 	e.poolMode = 0
+	e.monoClock = 0
+	e.onces = nil
 	e.lockEvents = nil
 	e.lockWatch = nil
 	e.curFrame = nil
